@@ -462,60 +462,71 @@ func runCase(c wcase, idx int) []byte {
 	return line(M{"tree": compress(full), "o": c.O, "outs": merge(outs), "src": c.Src})
 }
 
-// compress writes chains of single-child containers as one "wrap" node: TLC's JSON reader refuses nesting beyond 255.
+// compress keeps the trace readable for TLC, whose JSON reader refuses documents nested deeper than 255: a deep spine
+// (at every level the child that is itself deepest) is written as ONE node
+//   {"t":"chain","lv":[{"k":0|1,"pre":[...],"post":[...],"key":[..],"pk":[[..]],"qk":[[..]]}, ...],"inner":tree}
+// outermost level first; k = 0 array / 1 object; pre / post = the (shallow) siblings before / after the spine member, for
+// objects with their keys pk / key / qk in the ascending order of the tree. The trace specifications expand it again.
+func nodeDepth(t M) int {
+	d := 0
+	switch t["t"] {
+	case "arr", "obj":
+		for _, e := range t["v"].([]any) {
+			if x := nodeDepth(e.(M)) + 1; x > d {
+				d = x
+			}
+		}
+		if d == 0 {
+			d = 1
+		}
+	}
+	return d
+}
+
 func compress(t M) M {
-	var wk []int
-	ks := []any{}
+	if nodeDepth(t) < 40 {
+		return t
+	}
+	var lv []any
 	cur := t
 	for {
-		if cur["t"] == "arr" {
-			if v, _ := cur["v"].([]any); len(v) == 1 {
-				wk = append(wk, 0)
-				ks = append(ks, []int{})
-				cur = v[0].(M)
-				continue
-			}
-		} else if cur["t"] == "obj" {
-			if v, _ := cur["v"].([]any); len(v) == 1 {
-				wk = append(wk, 1)
-				ks = append(ks, cur["k"].([]any)[0])
-				cur = v[0].(M)
-				continue
+		kind := cur["t"]
+		if kind != "arr" && kind != "obj" {
+			break
+		}
+		vs, _ := cur["v"].([]any)
+		best, bd := -1, 0
+		for i, e := range vs {
+			if d := nodeDepth(e.(M)); d > bd {
+				best, bd = i, d
 			}
 		}
-		break
-	}
-	var inner M
-	switch cur["t"] {
-	case "arr":
-		src := cur["v"].([]any)
-		v := make([]any, len(src))
-		for i := range src {
-			v[i] = compress(src[i].(M))
+		if best < 0 || bd < 3 {
+			break
 		}
-		inner = M{"t": "arr", "v": v}
-	case "obj":
-		src := cur["v"].([]any)
-		v := make([]any, len(src))
-		for i := range src {
-			v[i] = compress(src[i].(M))
-		}
-		inner = M{"t": "obj", "k": cur["k"], "v": v}
-	default:
-		inner = cur
-	}
-	if len(wk) < 4 {
-		// short chains stay as they are
-		for i := len(wk) - 1; i >= 0; i-- {
-			if wk[i] == 0 {
-				inner = M{"t": "arr", "v": []any{inner}}
-			} else {
-				inner = M{"t": "obj", "k": []any{ks[i]}, "v": []any{inner}}
+		pre, post := []any{}, []any{}
+		for i, e := range vs {
+			if i < best {
+				pre = append(pre, compress(e.(M)))
+			} else if i > best {
+				post = append(post, compress(e.(M)))
 			}
 		}
-		return inner
+		l := M{"k": 0, "pre": pre, "post": post, "key": []int{}, "pk": []any{}, "qk": []any{}}
+		if kind == "obj" {
+			ks := cur["k"].([]any)
+			l["k"] = 1
+			l["key"] = ks[best]
+			l["pk"] = append([]any{}, ks[:best]...)
+			l["qk"] = append([]any{}, ks[best+1:]...)
+		}
+		lv = append(lv, l)
+		cur = vs[best].(M)
 	}
-	return M{"t": "wrap", "wk": wk, "ks": ks, "inner": inner}
+	if len(lv) == 0 {
+		return t
+	}
+	return M{"t": "chain", "lv": lv, "inner": cur}
 }
 
 func parallel(n int, fn func(i int) []byte) [][]byte {
